@@ -238,3 +238,25 @@ class CellInvariant:
                 R.violation(f'inv-hash-l{l}-type{cell_type}-mask{ref.mask}', f'get_hash({l}) differs from spec', W())
             if d != ref.get_depth(l):
                 R.violation(f'inv-depth-l{l}-type{cell_type}-mask{ref.mask}', f'get_depth({l})={d} != spec {ref.get_depth(l)}', W())
+
+
+def damaged_before_valid(R, rng, cell_rc, parse, k=None):
+    """Feed `parse` (a function of a library cell) one to three damaged versions of an ordinary reference cell - cut short, a reference missing, leading tag bits
+    inverted.  What the library does with them is NOT judged; the point is that the valid parse the caller makes next must not depend on them (guards, counters
+    and caches left behind by a rejected parse)."""
+    from lib import mon, refcell as rc
+    for _ in range(k or rng.randint(1, 3)):
+        bits, refs = cell_rc.bits, list(cell_rc.refs)
+        how = rng.choice(['cut', 'cut', 'ref', 'tag'])
+        if how == 'cut' and bits:
+            bits = bits[:rng.randrange(len(bits))]
+        elif how == 'ref' and refs:
+            refs = refs[:-1]
+        else:
+            n = min(len(bits), rng.randint(1, 6))
+            bits = ''.join('1' if c == '0' else '0' for c in bits[:n]) + bits[n:]
+        st0, bad = mon.call(lambda: to_lib(rc.RC(bits, refs)))
+        if st0 == 'ok':
+            st0, _ = mon.call(parse, bad)
+            R.cover('damaged_parse_outcomes', f'{how}:{st0}')
+            R.count('damaged_parses_before_valid')
